@@ -1,7 +1,8 @@
 #!/bin/bash
 # MANIFEST.setup_cmd: regenerate tables from /repo and build model, proofs and driver (offline).
 cd "$(dirname "$0")" || exit 2
-export PYTHONPATH="/repo/src:$(pwd)"
+export RPFT_REPO="${RPFT_REPO:-/repo}"
+export PYTHONPATH="$RPFT_REPO/src:$(pwd)"
 export PYTHONWARNINGS="ignore"
 export PATH="/opt/veriftools/lean/bin:$PATH"
 /venv/bin/python -m harness.extract_tables || exit 2
